@@ -16,7 +16,7 @@ func init() {
 	register("C04", "Decides structural necessary conditions of 'a task or detector belongs to at most one environment': "+
 		"(R04a) task ownership is written only by acquire, release and the task constructor; (R04b) release refuses tasks locked by another environment, the acquire rollback only unlocks tasks of its own deployment; "+
 		"(R04c) every path to a Mesos KILL passes a not-owned filter (roster filters of Cleanup/KillTasks, reconciliation guard), EmergencyKillTasks being the one allow-listed exception; "+
-		"(R04d) reuse claims only claimable (unowned, idle) tasks; (R04e) environment registration is preceded by the detector exclusion check and is atomic with the snapshot it checks against; (R04g) the roster shrinks only by members of the kill list handed to doKillTasks. "+
+		"(R04d) reuse claims only claimable (unowned, idle) tasks; (R04e) environment registration is preceded by the detector exclusion check and is atomic with the snapshot it checks against; (R04g) the roster shrinks only by members of the kill list handed to doKillTasks; (R04h) the identity fields the ownership test reads (agent, executor, host, offer, task id) are only written at construction, cleared by the executor/agent-loss handlers, or refreshed from a status message that carries the id. "+
 		"Does not decide invariance over interleavings.", runC04)
 }
 
@@ -28,6 +28,7 @@ func runC04(c *an.Ctx) {
 	r04d(c)
 	r04e(c)
 	r04g(c)
+	r04h(c)
 }
 
 func r04a(c *an.Ctx) {
@@ -397,7 +398,7 @@ func r04e(c *an.Ctx) {
 								if !isC || v != ssa.Value(ex) {
 									continue
 								}
-								fl := an.FlowFrom(b.Succs[trueIdx], nil)
+								fl := an.FlowFromEdge(b, trueIdx, nil)
 								rets := fl.ReachedReturns()
 								good := len(rets) > 0 && !fl.Reaches(store)
 								for _, ret := range rets {
@@ -437,4 +438,80 @@ func r04e(c *an.Ctx) {
 			"the active-detector snapshot is taken and the environment registered under different acquisitions of Manager.mu (check-then-act): two concurrent creations needing the same detector both pass the check")
 	}
 	_ = types.Typ
+}
+
+// r04h: isLocked() - "owned by an environment" - also requires the task's agent, executor, host, offer and task ids to be
+// non-empty. Those fields may therefore only be written where the value cannot silently become empty.
+func r04h(c *an.Ctx) {
+	c.Rule("R04h", "the id fields read by Task.isLocked are written only by the constructor, cleared only by the executor/agent loss handlers, and refreshed from a Mesos status only under a nil check of the id it carries", 3)
+	il := c.MustFn("core/task", "Task.isLocked")
+	if il == nil {
+		return
+	}
+	fields := map[string]bool{}
+	an.Instrs(il, func(in ssa.Instruction) {
+		if fa, ok := in.(*ssa.FieldAddr); ok {
+			if f := an.FieldOf(fa); f != nil && f.Name() != "parent" {
+				fields[f.Name()] = true
+			}
+		}
+	})
+	if len(fields) < 3 {
+		c.Lost("identity fields read by Task.isLocked")
+		return
+	}
+	taskT := c.NamedType("core/task", "Task")
+	for _, f := range c.ModuleFuncs() {
+		an.Instrs(f, func(in ssa.Instruction) {
+			st, ok := in.(*ssa.Store)
+			if !ok {
+				return
+			}
+			fa, ok := st.Addr.(*ssa.FieldAddr)
+			if !ok {
+				return
+			}
+			fld := an.FieldOf(fa)
+			if fld == nil || !fields[fld.Name()] {
+				return
+			}
+			// a field of core/task.Task
+			bt := fa.X.Type()
+			if p, isP := bt.(*types.Pointer); isP {
+				bt = p.Elem()
+			}
+			if taskT == nil || !types.Identical(bt, taskT) {
+				return
+			}
+			c.Subject()
+			name := c.RelName(an.OutermostParent(f))
+			key := "write|" + fld.Name() + "|" + name
+			// constructor: the object is a composite literal allocated here
+			if al, isAl := fa.X.(*ssa.Alloc); isAl && strings.Contains(al.Comment, "complit") {
+				c.Ob(key, st.Pos(), true, "set at construction")
+				return
+			}
+			if s, isS := an.ConstString(st.Val); isS && s == "" {
+				okH := strings.HasSuffix(name, ").HandleExecutorFailed") || strings.HasSuffix(name, ").HandleAgentFailed")
+				c.Ob(key, st.Pos(), okH, "an identity field is cleared in %s: only the executor/agent loss handlers may give up ownership this way", name)
+				return
+			}
+			// refreshed from a status message: value is X.GetValue() with X = status.Get<Id>(), under X != nil
+			guarded := false
+			if call, isCall := an.Strip(st.Val).(*ssa.Call); isCall && an.MethodName(&call.Call) == "GetValue" {
+				idMsg := an.Strip(an.Args(&call.Call)[0])
+				if idCall, isIdCall := idMsg.(*ssa.Call); isIdCall {
+					getter := an.MethodName(&idCall.Call)
+					guarded = an.GuardedByAll(st.Block(), func(a an.Atom) bool {
+						if a.Y == nil || a.Op != token.NEQ || !an.IsNilConst(a.Y) {
+							return false
+						}
+						g, isG := an.Strip(a.X).(*ssa.Call)
+						return isG && an.MethodName(&g.Call) == getter
+					})
+				}
+			}
+			c.Ob(key, st.Pos(), guarded, "%s is overwritten in %s with a value that is empty when the status message carries no such id: the task stops counting as owned (isLocked), gets killed by the next cleanup and can be claimed by another environment", fld.Name(), name)
+		})
+	}
 }
